@@ -1,6 +1,6 @@
 """C06 (lattice family; see latfam.py)."""
-from . import latfam
+from . import latfam, util
 
-globals().update(latfam.module('C06', ['C06_key_irrefl_partial', 'C06_key_trans_partial', 'C06_key_total_partial'],
+globals().update(latfam.module('C06', util.theorems('C06'),
     'contexts as C03, labels ordered differently from positions; observation = iteration order, index, dindex, infimum, supremum, atoms and the ordered neighbour tuples; non-trivial = two concepts of equal size and a concept with >=2 upper neighbours',
-    extra_targets=['Tie/Lindig.vo', 'Tie/Matrices.vo'], partial='enumeration order decided by the correspondence'))
+    extra_targets=['Tie/Lindig.vo', 'Tie/Matrices.vo'], partial=''))
